@@ -548,6 +548,15 @@ class Ehdr(StructFormatter):
             self.unpack(data)
 
     def unpack(self, data, offset=0, psize=0):
+        try:
+            return self._unpack(data, offset, psize)
+        except ElfError:
+            raise
+        except Exception:
+            # (truncated or unreadable header)
+            raise StructureError(self.__class__.__name__)
+
+    def _unpack(self, data, offset=0, psize=0):
         f0 = self.fields[0]
         self._v.e_ident = f0.unpack(data, offset)
         offset += f0.size()
